@@ -18,6 +18,7 @@ import models
 SIZES = [1, 15, 16, 17, 48, 100, 112, 256]
 ALIGNS = [16, 32, 64, 128]
 MIN_IMPROVE = 500
+P8_SMALL = [(3, 3, 100, 128), (1, 2, 100, 16), (0, 1, 1, 32), (1, 1, 16, 32), (2, 3, 1, 64)]   # = Alloc p8_witness
 P8_WITNESS = [(4, 4, 17, 128), (4, 5, 1, 16), (5, 5, 16, 32), (3, 3, 100, 16), (5, 5, 1, 64), (3, 3, 16, 64),
               (3, 4, 15, 128), (5, 6, 1, 64)]
 
@@ -274,7 +275,10 @@ def build_cases(tier, rng):
     greedy = corpus + exhaustive + smallrand + mid + big
     # hill climb is ~500 iterations per non-optimal case: thinner
     hex_ = exhaustive if not quick else exhaustive[::7]
-    hill = corpus + hex_ + smallrand[: (500 if quick else 20000)] + mid[: (60 if quick else 1500)] + big[: (3 if quick else 60)]
+    rest = [c for pair in itertools.zip_longest(hex_, smallrand[: (500 if quick else 20000)]) for c in pair if c is not None]
+    # the extracted hill-climb model is list based (about 20 s for 300 ranges x 500 passes): few very large cases
+    hbig = [c for c in big if len(c) <= 160][: (2 if quick else 40)] + [c for c in big if len(c) > 160][: (0 if quick else 12)]
+    hill = corpus + hbig + mid[: (40 if quick else 1500)] + rest      # a time budget cuts the tail
     nz = 300 if quick else 5000
     zero = [gen_ranges(rng, rng.randint(2, 8), rng.randint(2, 6), [0, 0, 1, 16, 17, 100], ALIGNS) for _ in range(nz)]
     zero.insert(0, [(0, 5, 100, 16), (1, 1, 0, 16), (1, 5, 16, 16)])
@@ -360,6 +364,8 @@ def run(tier):
             d.update(extra or {})
             first_bad.append(({"allocator": kind, "ranges": str(ranges)[:400]}, d, "%s: %s" % (kind, why)))
 
+    phase = {"build": round(time.time() - res.t0, 1)}
+    t_g = time.time()
     # ---------------- Greedy ----------------
     gcases = [(r, rng.sample(range(len(r)), len(r))) for r in cases["greedy"]]
     gimpl = [run_greedy_impl(r, nm) for r, nm in gcases]
@@ -387,6 +393,8 @@ def run(tier):
                 diffs.append(("greedy", r, {"model": [m[0], maddr], "impl": [o["total"], o["addr"]], "names": nm}))
     samples.append({"allocator": "greedy", "ranges": gcases[3][0], "addresses": gimpl[3]["addr"], "total": gimpl[3]["total"]})
 
+    phase["greedy"] = round(time.time() - t_g, 1)
+    t_l = time.time()
     # ---------------- Linear ----------------
     nl = 3000 if tier == "quick" else 60000
     lcases = [(rng.choice([16, 16, 32, 64, 128, 256]), gen_linear(rng, rng.choice([1, 2, 3, 5, 8, 20, 60]))) for _ in range(nl)]
@@ -421,9 +429,10 @@ def run(tier):
     samples.append({"allocator": "linear", "granularity": lcases[5][0], "entries(size,wcc,scc,lut,eq)": lcases[5][1][:8],
                     "result": {k: v for k, v in limpl[5].items()}})
 
+    phase["linear"] = round(time.time() - t_l, 1)
     # ---------------- HillClimb ----------------
-    hcases = []
-    for k, r in enumerate(cases["hill"] + cases["zero"][: (60 if tier == "quick" else 1500)]):
+    hcases = [(P8_SMALL, 0, 1 << 32, False), (P8_WITNESS, None, 1 << 32, False)]   # replays of the known defect, real stream
+    for k, r in enumerate(cases["zero"][: (60 if tier == "quick" else 1500)] + cases["hill"]):
         pk = peak(r)
         mi = rng.choice([None, 0, 0, 1, 7, 100, 600, 1500])
         lim = rng.choice([0, pk, pk + 16, 1 << 32, 1 << 32])
@@ -432,7 +441,7 @@ def run(tier):
         adversarial = (k % 3 == 1)
         hcases.append((r, mi, lim, adversarial))
     himpl = []
-    hc_budget = 55 if tier == "quick" else 900
+    hc_budget = 20 if tier == "quick" else 900
     t_h = time.time()
     done_h = 0
     for r, mi, lim, adv in hcases:
@@ -450,8 +459,6 @@ def run(tier):
         iters_seen["0" if its <= 0 else ("1-499" if its < 500 else "500+")] += 1
         if o["err"] is not None:
             key = {"allocator": "hillclimb", "exception": "ValueError randint" if o["err"] == 1 else str(o["err"])}
-            if r == P8_WITNESS:
-                key["ranges"] = "P8"
             known_p8.append((key, {"ranges": r, "max_iterations": mi, "memory_limit": lim, "stream": o["stream"][-20:],
                                    "adversarial_stream": adv, "error": o["err"]}))
             continue
@@ -493,7 +500,9 @@ def run(tier):
         samples.append({"allocator": "hillclimb", "ranges": hcases[3][0], "max_iterations": hcases[3][1], "memory_limit": hcases[3][2],
                         "addresses": himpl[3]["addr"], "total": himpl[3]["total"], "randint_results": himpl[3]["stream"][:12]})
 
+    phase["hillclimb"] = round(time.time() - t_h, 1)
     res.cov.update({
+        "phase_seconds": phase,
         "evaluations": evals, "distinct_nontrivial": nontrivial,
         "rule": "range sets with at least two ranges alive at a common time step (Greedy, HillClimb); Linear: at least two entries; "
                 "every case: real allocator vs extracted model (addresses, total, number of randint draws) and the property oracle on "
